@@ -1,6 +1,6 @@
 """C02 -- nothing is recomputed unless something it depends on changed."""
 from contracts import api, api_stages
-from ._api_common import TRUSTED_API, owner
+from ._api_common import TRUSTED_API, owner, _AnyApiClause
 
 ID = "C02"
 LEVEL = "other"
@@ -9,7 +9,7 @@ TRUSTED = TRUSTED_API
 ASSUMPTIONS = ["A-USER", "A-DET", "A-LOG", "A-FLOAT", "A-ALIAS"]
 LEVEL_TEXT = 'Deductive proof of the hit/miss postconditions over the effect trace; signature-layer clauses are proved in the hashing contracts; discovery is a bounded stand-in (labelled, not counted).'
 DESIGN_REF = "5 (C02)"
-REPLAY = {}
+REPLAY = _AnyApiClause()
 owns = owner("C02")
 
 
